@@ -205,3 +205,87 @@ func c04FileStorageDeath(c *Ctx, n int) {
 		c19fsOne(c, cs, "open:file-storage:death-inside-setmeta:")
 	}
 }
+
+// c19FileStorageLegacyNames: tables under their old name (NNNNNN.sst, which the file storage still reads), one of them
+// with a damaged data block: RecoverFile rebuilds it and renames the rebuilt file onto the table.  The directory must
+// then hold ONE file per table, RecoverFile must succeed and so must every later OpenFile (defect D51: the rebuilt
+// NNNNNN.ldb was created next to the damaged NNNNNN.sst, the table was listed twice and every Open failed with "file
+// missing").
+func c19FileStorageLegacyNames(c *Ctx, n int) {
+	for i := 0; i < n && c.TimeLeft(); i++ {
+		r := c.R.Fork()
+		seed := r.U64()
+		rr := rng.New(seed)
+		rp := map[string]interface{}{"seed": seed, "how": "OpenFile a fresh temp dir (WriteBuffer 4 KiB), put 100-400 keys, CompactRange, Close; rename every NNNNNN.ldb to NNNNNN.sst; flip one byte in the first half of one table; RecoverFile; Close; OpenFile; scan"}
+		dir, err := os.MkdirTemp(c.OutDir, "c19sst-")
+		if err != nil {
+			return
+		}
+		func() {
+			defer os.RemoveAll(dir)
+			o := &opt.Options{WriteBuffer: 4 << 10, Compression: opt.NoCompression}
+			db, err := leveldb.OpenFile(dir, o)
+			if err != nil {
+				return
+			}
+			nk := 300 + rr.Intn(500)
+			for k := 0; k < nk; k++ {
+				db.Put([]byte(fmt.Sprintf("key-%04d", k)), []byte(fmt.Sprintf("value-%04d-%d", k, rr.U64())), nil)
+			}
+			db.CompactRange(util.Range{})
+			db.Close()
+			des, _ := os.ReadDir(dir)
+			var tables []string
+			for _, de := range des {
+				if strings.HasSuffix(de.Name(), ".ldb") {
+					nn := strings.TrimSuffix(de.Name(), ".ldb") + ".sst"
+					os.Rename(filepath.Join(dir, de.Name()), filepath.Join(dir, nn))
+					tables = append(tables, nn)
+				}
+			}
+			if len(tables) == 0 {
+				return
+			}
+			// the DB opens and reads fine under the old names
+			if db, err = leveldb.OpenFile(dir, o); err != nil {
+				c.Res.Violate("recover:file-storage:legacy-names:open-failed", fmt.Sprintf("OpenFile on tables named .sst failed: %v", err), rp)
+				return
+			}
+			db.Close()
+			victim := filepath.Join(dir, tables[rr.Intn(len(tables))])
+			b, _ := os.ReadFile(victim)
+			if len(b) < 200 {
+				return
+			}
+			b[10+rr.Intn(len(b)/3)] ^= 0x40
+			os.WriteFile(victim, b, 0644)
+			c.Res.Count("file_storage", "legacy-sst-names")
+			c.Res.Eval(fmt.Sprintf("SST/%d", seed), true)
+			db, err = leveldb.RecoverFile(dir, o)
+			if err != nil {
+				c.Res.Violate("recover:file-storage:legacy-names:recoverfile-failed", fmt.Sprintf("RecoverFile failed: %v; directory now: %s", err, c19fsListing(dir)), rp)
+				return
+			}
+			db.Close()
+			db, err = leveldb.OpenFile(dir, o)
+			if err != nil {
+				c.Res.Violate("recover:file-storage:legacy-names:reopen-failed", fmt.Sprintf("OpenFile after RecoverFile failed: %v; directory now: %s", err, c19fsListing(dir)), rp)
+				return
+			}
+			it := db.NewIterator(nil, nil)
+			cnt := 0
+			for it.Next() {
+				cnt++
+			}
+			ierr := it.Error()
+			it.Release()
+			db.Close()
+			if ierr != nil || cnt < nk-200 {
+				c.Res.Violate("recover:file-storage:legacy-names:contents", fmt.Sprintf("after RecoverFile + OpenFile a scan shows %d of %d keys (one damaged block may cost up to a block's worth), error %v", cnt, nk, ierr), rp)
+			}
+		}()
+		if len(c.Res.Violations) > 0 {
+			return
+		}
+	}
+}
